@@ -410,6 +410,53 @@ type c01Case struct {
 	fclaim  int
 	fsigner int
 	fsm     int
+	// a panic inside one endpoint's runHandshake
+	fault  bool
+	pinit  bool
+	pstage int // 0 the pidx-th Write on the insecure conn, 1 the pidx-th Read, 2 early-data Send, 3 Received
+	pidx   int
+}
+
+// a connection whose k-th Write (or Read) panics
+type c01PanicConn struct {
+	net.Conn
+	stage, idx   int
+	nread, nwrit int
+}
+
+func (c *c01PanicConn) Read(b []byte) (int, error) {
+	k := c.nread
+	c.nread++
+	if c.stage == 1 && k == c.idx {
+		panic("c01: injected fault in Read")
+	}
+	return c.Conn.Read(b)
+}
+
+func (c *c01PanicConn) Write(b []byte) (int, error) {
+	k := c.nwrit
+	c.nwrit++
+	if c.stage == 0 && k == c.idx {
+		panic("c01: injected fault in Write")
+	}
+	return c.Conn.Write(b)
+}
+
+// an early-data handler that panics in Send (stage 2) or Received (stage 3)
+type c01PanicEDH struct{ stage int }
+
+func (h c01PanicEDH) Send(context.Context, net.Conn, peer.ID) *pb.NoiseExtensions {
+	if h.stage == 2 {
+		panic("c01: injected fault in the early data handler's Send")
+	}
+	return nil
+}
+
+func (h c01PanicEDH) Received(context.Context, net.Conn, *pb.NoiseExtensions) error {
+	if h.stage == 3 {
+		panic("c01: injected fault in the early data handler's Received")
+	}
+	return nil
 }
 
 var c01Prologues = [][]byte{nil, []byte("c01-prologue-one"), []byte("c01-prologue-two")}
@@ -428,9 +475,21 @@ func c01Endpoint(c *c01Case, role int, conn net.Conn) c01Obs {
 	if sd.exp != 0 {
 		exp = c01IDs[okt][sd.exp-1]
 	}
+	faulty := c.fault && c.pinit == (role == 0)
+	if faulty && c.pstage <= 1 {
+		conn = &c01PanicConn{Conn: conn, stage: c.pstage, idx: c.pidx}
+	}
 	var st sec.SecureTransport = tpt
 	if sd.sess != 0 {
 		var opts []SessionOption
+		if faulty && c.pstage >= 2 {
+			h := c01PanicEDH{c.pstage}
+			if role == 0 {
+				opts = append(opts, EarlyData(h, nil))
+			} else {
+				opts = append(opts, EarlyData(nil, h))
+			}
+		}
 		if sd.pro != 0 {
 			opts = append(opts, Prologue(c01Prologues[sd.pro]))
 		}
@@ -515,6 +574,7 @@ func c01Run(c *c01Case, lens *[4]int) ([]int64, bool) {
 	}
 	line = append(line, sym.ek, sym.em, sym.ea, sym.eb, sym.pos)
 	line = append(line, b2i(c.forge), b2i(c.finit), int64(c.fclaim), int64(c.fsigner), int64(c.fsm))
+	line = append(line, b2i(c.fault), b2i(c.pinit), int64(c.pstage), int64(c.pidx))
 	line = append(line, int64(nsess))
 	for s := 0; s < nsess; s++ {
 		for r := 0; r < 2; r++ {
@@ -679,6 +739,25 @@ func c01Generate(t *testing.T, rnd *verifh.Rand, types []int, thorough bool) []c
 					}
 				}
 			}
+			// (E) a panic inside runHandshake: the k-th Write / Read on the insecure connection, the early-data
+			// handler's Send / Received, in either endpoint, with and without an expected peer
+			for pinit := 0; pinit < 2; pinit++ {
+				for _, st := range [][2]int{{0, 0}, {0, 1}, {1, 0}, {1, 1}, {2, 0}, {3, 0}} {
+					for setting := 0; setting < 4; setting++ {
+						for otherSetting := 0; otherSetting < 3; otherSetting += 2 {
+							for _, pro := range []int{0, 1} {
+								sd := [2]c01Side{c01SettingSide(1, 2, otherSetting, pro, rnd), c01SettingSide(2, 1, otherSetting, pro, rnd)}
+								frole := 1 - pinit
+								sd[frole] = c01SettingSide(1+frole, 2-frole, setting, pro, rnd)
+								if st[0] >= 2 {
+									sd[frole].sess = 1
+								}
+								cases = append(cases, c01Case{kt: kt, sd: sd, fault: true, pinit: pinit == 1, pstage: st[0], pidx: st[1]})
+							}
+						}
+					}
+				}
+			}
 		}
 	}
 	return cases
@@ -747,7 +826,10 @@ func TestVerifC01Noise(t *testing.T) {
 			out.Cover("noise_stalled_network_closed")
 		}
 		out.Cover("noise_keytypes_" + string(rune('0'+l[1])) + string(rune('0'+l[2])))
-		for j := 24; j+2 < len(l); j += 3 {
+		if cases[i].fault {
+			out.Cover("noise_panic_" + []string{"conn_write", "conn_read", "earlydata_send", "earlydata_received"}[cases[i].pstage])
+		}
+		for j := 28; j+2 < len(l); j += 3 {
 			out.Cover("noise_outcome_" + clsName[l[j]])
 		}
 		if cases[i].sd[0].pro != cases[i].sd[1].pro {
@@ -763,7 +845,7 @@ func TestVerifC01NoiseReplay(t *testing.T) {
 	}
 	defer out.Close()
 	l := verifh.ReplayCase()
-	if len(l) < 24 || l[0] != 1 {
+	if len(l) < 28 || l[0] != 1 {
 		t.Skip("not a noise case")
 	}
 	c01GenKeys(t, []int{int(l[1]), int(l[2])})
@@ -794,6 +876,7 @@ func TestVerifC01NoiseReplay(t *testing.T) {
 		c.e = c01Edit{op: 6, msg: em}
 	}
 	c.forge, c.finit, c.fclaim, c.fsigner, c.fsm = l[18] != 0, l[19] != 0, int(l[20]), int(l[21]), int(l[22])
+	c.fault, c.pinit, c.pstage, c.pidx = l[23] != 0, l[24] != 0, int(l[25]), int(l[26])
 	line, _ := c01Run(&c, nil)
 	out.Case(line)
 }
